@@ -66,6 +66,7 @@ def observe(state: Obj, pairs: list, result: object) -> dict:
         "result": bool(result), "pos": state.pos, "stack": list(state.user_stack.__dict__.get("items", [])), "pairs": tuple(pair_shape(p) for p in pairs),
         "frames": len(state.rule_stack.__dict__.get("items", [])), "atomic": state.atomic_depth.__dict__.get("_value"), "negdepth": state.neg_pred_depth,
         "tags": list(state.tag_stack), "open_checkpoints": len(state.__dict__.get("_pos_history", [])),
+        "hide": bool(state.__dict__.get("hide_pairs", False)),
     }
 
 
@@ -265,8 +266,8 @@ def check_gen(repo: Repo, where: str, masks: dict, thorough: bool = False) -> tu
                 bad.append(("the siblings disagree on success", f"{desc}{tail}: Rule.parse returns {oi['result']}, generated code {og['result']}"))
                 continue
             for side, o in (("Rule.parse", oi), ("the generated code", og)):
-                if o["open_checkpoints"] or (o["frames"], o["atomic"], o["negdepth"]) != (0, 0, 0):
-                    bad.append((f"{side} leaves checkpoints open or depth counters changed", f"{desc}{tail}: open {o['open_checkpoints']}, frames {o['frames']}, atomic {o['atomic']}"))
+                if o["open_checkpoints"] or (o["frames"], o["atomic"], o["negdepth"], o["hide"]) != (0, 0, 0, False):
+                    bad.append((f"{side} leaves checkpoints open or depth counters / pair visibility changed", f"{desc}{tail}: open {o['open_checkpoints']}, frames {o['frames']}, atomic {o['atomic']}, hide_pairs {o['hide']}"))
             if not oi["result"]:
                 continue
             for key, what in (("pairs", "tree of pairs"), ("pos", "position"), ("stack", "user stack"), ("tags", "tag stack"), ("log", "order of attempts")):
